@@ -39,20 +39,22 @@
 (***************************************************************************)
 EXTENDS Scanner
 
-VARIABLES
-  s,        \* scanner state of the call in progress
-  n,        \* number of lines fed so far
-  from,     \* index of the first line of the call in progress
-  b,        \* bookkeeping of the call in progress: [fwd, tail, held, cons, k1, k2]
-  calls,    \* completed calls
-  ended,    \* TRUE once an unterminated line was fed: nothing can follow
-  closed    \* TRUE once the last call has already reported the end of the stream
-
-pvars == <<s, n, from, b, calls, ended, closed>>
+(* The pipeline state is one record, so that the transition is a pure
+   operator PStep(ps, l) that MC modules can also fold over a whole stream:
+     s       scanner state of the call in progress
+     n       number of lines fed so far
+     from    index of the first line of the call in progress
+     b       bookkeeping of the call in progress: [fwd, tail, held, cons, k1, k2]
+     calls   completed calls
+     ended   TRUE once an unterminated line was fed: nothing can follow
+     closed  TRUE once the last call has already reported the end of the stream *)
+VARIABLE ps
+pvars == <<ps>>
 
 B0 == [fwd |-> <<>>, tail |-> <<>>, held |-> <<>>, cons |-> <<>>, k1 |-> <<>>, k2 |-> 0]
 
-PInit == /\ s = InitS /\ n = 0 /\ from = 1 /\ b = B0 /\ calls = <<>> /\ ended = FALSE /\ closed = FALSE
+PS0 == [s |-> InitS, n |-> 0, from |-> 1, b |-> B0, calls |-> <<>>, ended |-> FALSE, closed |-> FALSE]
+PInit == ps = PS0
 
 (* projection of a goroutine under construction to what the API exposes *)
 ProjCall(c) == [fn |-> c.fn.tok, lead |-> c.lead, file |-> c.file.tok, flead |-> c.flead]
@@ -102,42 +104,50 @@ Deliver(st0, b0, l, k) ==
        \* gotRaceHeader2) are released to the writer first.
        Out(r.s, Release(b0), TRUE, k, r.err)
 
-(* FeedLine: deliver line l (index n+1).  If the call returns with the line
+(* PStep: deliver line l (index n+1).  If the call returns with the line
    unconsumed, the next call starts at the same line: deliver it again to a
    fresh call (which cannot return on it: a fresh call is `looking').
    An unterminated line is the last one and reaches the scanner together with
    the end of the stream: a call that returns on it without a parse error
    reports EOF itself, and no further call is made.                          *)
-FeedLine(l) ==
-  LET k  == n + 1
-      d1 == Deliver(s, b, l, k)
+PStep(p, l) ==
+  LET k  == p.n + 1
+      d1 == Deliver(p.s, p.b, l, k)
       last == l.eol = "none"
+      base == [p EXCEPT !.n = k, !.ended = last]
   IN
-  /\ ~ended
-  /\ n' = k
-  /\ ended' = last
-  /\ IF ~d1.ret
-     THEN /\ s' = d1.s /\ b' = d1.b /\ UNCHANGED <<from, calls, closed>>
-     ELSE IF last /\ d1.err = ""
-     THEN /\ calls' = Append(calls, CallRec(from, [d1.b EXCEPT !.tail = IF d1.stop = k THEN <<k>> ELSE <<>>],
-                                            d1.s, k + 1, "eof"))
-          /\ closed' = TRUE
-          /\ s' = InitS /\ from' = k + 1 /\ b' = B0
-     ELSE LET rec == CallRec(from, d1.b, d1.s, d1.stop, d1.err) IN
-          /\ calls' = Append(calls, rec)
-          /\ closed' = FALSE
-          /\ IF d1.stop = k + 1
-             THEN \* footer consumed: the next call starts at the next line
-                  /\ s' = InitS /\ from' = k + 1 /\ b' = B0
-             ELSE LET d2 == Deliver(InitS, B0, l, k) IN
-                  /\ from' = k /\ s' = d2.s /\ b' = d2.b
+  IF ~d1.ret
+  THEN [base EXCEPT !.s = d1.s, !.b = d1.b]
+  ELSE IF last /\ d1.err = ""
+  THEN [base EXCEPT !.calls = Append(@, CallRec(p.from, [d1.b EXCEPT !.tail = IF d1.stop = k THEN <<k>> ELSE <<>>],
+                                                 d1.s, k + 1, "eof")),
+                    !.closed = TRUE, !.s = InitS, !.from = k + 1, !.b = B0]
+  ELSE LET rec == CallRec(p.from, d1.b, d1.s, d1.stop, d1.err) IN
+       IF d1.stop = k + 1
+       THEN \* footer consumed: the next call starts at the next line
+            [base EXCEPT !.calls = Append(@, rec), !.s = InitS, !.from = k + 1, !.b = B0]
+       ELSE LET d2 == Deliver(InitS, B0, l, k) IN
+            [base EXCEPT !.calls = Append(@, rec), !.from = k, !.s = d2.s, !.b = d2.b]
+
+FeedLine(l) == ~ps.ended /\ ps' = PStep(ps, l)
+
+RECURSIVE RunFrom(_, _, _)
+RunFrom(p, L, i) == IF i > Len(L) THEN p ELSE RunFrom(PStep(p, L[i]), L, i + 1)
+(* the whole stream L scanned from the start *)
+RunAll(L) == RunFrom(PS0, L, 1)
 
 (* The stream as it stands, closed by EOF: the call in progress returns what
    it has; lines still held tentatively are handed back.                     *)
-FinalCalls ==
-  IF closed THEN calls ELSE
-  Append(calls, CallRec(from, [b EXCEPT !.tail = @ \o b.held, !.k1 = @ \o b.held, !.held = <<>>],
-                        s, n + 1, "eof"))
+FinalCallsOf(p) ==
+  IF p.closed THEN p.calls ELSE
+  Append(p.calls, CallRec(p.from, [p.b EXCEPT !.tail = @ \o p.b.held, !.k1 = @ \o p.b.held, !.held = <<>>],
+                          p.s, p.n + 1, "eof"))
+FinalCalls == FinalCallsOf(ps)
+calls == ps.calls
+n == ps.n
+s == ps.s
+b == ps.b
+ended == ps.ended
 
 ---------------------------------------------------------------------------
 (* Properties of the pipeline, as state predicates over the history.        *)
@@ -182,6 +192,6 @@ Disjoint == \A i, j \in 1..Len(calls) : i # j => Rng(calls[i].cons) \cap Rng(cal
 (* C10, line granularity: cutting the stream after any line yields a
    forwarded list that is a prefix of what any longer stream forwards, and
    the completed calls are unchanged.  (Action property over FeedLine.)     *)
-CutMonotone == /\ IsPrefix(FlatFwd(FinalCalls), FlatFwd(FinalCalls'))
-               /\ IsPrefix(calls, calls')
+CutMonotone == /\ IsPrefix(FlatFwd(FinalCalls), FlatFwd(FinalCallsOf(ps')))
+               /\ IsPrefix(ps.calls, ps'.calls)
 =============================================================================
